@@ -1132,6 +1132,8 @@ impl Value {
 
     pub(crate) fn static_null() -> &'static Node<Self> {
         static NULL: OnceLock<Node<Value>> = OnceLock::new();
+        #[cfg(apollo_rs_verif)]
+        let _verif_region = crate::verif::once_region("once:Value::static_null");
         NULL.get_or_init(|| Value::Null.into())
     }
 
